@@ -165,6 +165,7 @@ func KVAlphabet() []Op {
 	setOp("Set/exp30d", func(Env) uint32 { return 30 * 24 * 3600 }, false, false, J(`{"v":"set30"}`), 0)
 	setOp("Set/preserve", e0, true, false, J(`{"v":"setp"}`), 0)
 	setOp("Set/oversize", e0, false, false, bigBody, 0)
+	setOp("Set/nullprop", e0, false, false, J(`{"a":null,"v":"np"}`), 0) // a property that is present with value null
 	setOp("SetRaw/empty", e0, false, true, []byte{}, 0) // a present but zero-length body is still a body
 	// nil body: the call stores a document without a body; whether that is allowed is spec-silent, but
 	// whatever it leaves must be coherent (C05): all observers must agree it has no body.
@@ -258,6 +259,7 @@ func KVAlphabet() []Op {
 	writeCas("raw", "C", 0, sgbucket.Raw, J("rawwc"), J("rawwc"), 0)
 	writeCas("append", "C", 0, sgbucket.Append, J("+app"), J("+app"), 0)
 	writeCas("append", "S", 0, sgbucket.Append, J("+app"), J("+app"), 0)
+	writeCas("append-nil", "C", 0, sgbucket.Append|sgbucket.Raw, nil, nil, 0) // appending nothing: the body stays
 	writeCas("exp", "C", relExp, 0, J(`{"v":"wce"}`), J(`{"v":"wce"}`), 0)
 
 	// ---- Remove / Delete -------------------------------------------------------------------
@@ -501,6 +503,7 @@ func KVAlphabet() []Op {
 	}
 	rmX("RemoveXattrs/_s/C", "C", []string{"_s"}, 0)
 	rmX("RemoveXattrs/_s/S", "S", []string{"_s"}, 0)
+	rmX("RemoveXattrs/_s/Z", "Z", []string{"_s"}, 0) // expected CAS 0 = "no such document"
 	rmX("RemoveXattrs/_s+u/C", "C", []string{"_s", "u"}, 0)
 	rmX("RemoveXattrs/_zz/C", "C", []string{"_zz"}, 1)
 
@@ -830,8 +833,13 @@ func KVAlphabet() []Op {
 	dwx("DeleteWithXattrs/none", nil, 0)
 
 	// ---- WithMeta --------------------------------------------------------------------------
+	metaNilBody := false
 	meta := func(del bool, oldTok, newTok string, tier int, withExp ...bool) {
 		body := J(`{"v":"swm"}`)
+		nilBody := metaNilBody
+		if nilBody {
+			body = nil
+		}
 		xa := J(`{"_s":{"by":"meta"}}`)
 		name := ifs(del, "DeleteWithMeta", "SetWithMeta")
 		expOf := func(env Env) uint32 {
@@ -840,7 +848,7 @@ func KVAlphabet() []Op {
 			}
 			return 0
 		}
-		add(Op{Name: name + "/" + oldTok + "/" + newTok + ifs(len(withExp) > 0, "/exp", ""), EP: name, Tier: tier,
+		add(Op{Name: name + "/" + oldTok + "/" + newTok + ifs(len(withExp) > 0, "/exp", "") + ifs(nilBody, "/nilbody", ""), EP: name, Tier: tier,
 			Run: func(c *rosmar.Collection, env Env) Result {
 				newCas := env.Cas(newTok)
 				var err error
@@ -865,8 +873,8 @@ func KVAlphabet() []Op {
 				x.CasGiven = env.Cas(newTok)
 				x.XSet, x.X, x.XNamed = true, map[string]string{"_s": `{"by":"meta"}`}, map[string]bool{"_s": true}
 				x.ExpSet, x.Exp = true, expOf(env)
-				if del {
-					x.Live = No
+				if del || nilBody {
+					x.Live = No // no body: a tombstone, for every observer (C05)
 				} else {
 					x.Live, x.Body, x.IsJSON = Yes, body, Yes
 				}
@@ -880,6 +888,9 @@ func KVAlphabet() []Op {
 	meta(false, "C", "BE", 0)
 	meta(true, "C", "AB", 0)
 	meta(true, "S", "AB", 1)
+	metaNilBody = true
+	meta(false, "C", "AB", 0)
+	metaNilBody = false
 
 	// ---- sub-document ----------------------------------------------------------------------
 	subdoc := func(insert bool, path, tok string, raw []byte, tier int) {
@@ -903,6 +914,8 @@ func KVAlphabet() []Op {
 			Spec: func(pre Doc, env Env) Expect { return SubdocSpec(pre, env.Cas(tok), insert, path, raw) }})
 	}
 	subdoc(false, "a", "Z", J(`1`), 0)
+	subdoc(false, "a.b", "Z", J(`1`), 0) // through a parent that may be an object, absent, a number or null
+	subdoc(true, "a.b", "Z", J(`2`), 0)
 	subdoc(false, "a", "C", J(`{"z":2}`), 0)
 	subdoc(false, "a", "S", J(`1`), 0)
 	subdoc(false, "v", "Z", nil, 0)
